@@ -126,6 +126,9 @@ class KeyAction(object):
 
             with self.usage(key, kwargs.get('user', None)) as _key:
                 self.check_attributes(key)
+                if _key is not key:
+                    # the component that will do the work must be usable as well (a subkey can be locked on its own)
+                    self.check_attributes(_key)
 
                 # do the thing
                 return action(_key, *args, **kwargs)
